@@ -16,6 +16,13 @@ package gff
 //                                            between feature lines
 //
 // The oracle is the document description (c14Doc) the input was generated from.
+//
+// Besides single round trips there are HISTORIES on one path (roundtrip
+// clause): several documents are written with Write to the same path one after
+// the other, a smaller one after a larger one among them, and the path is read
+// back with Read after every Write; each Read must give the document written
+// last (classes prefixed path-rewritten-with-shorter-file /
+// path-rewritten-with-longer-or-equal-file).
 
 import (
 	"bytes"
@@ -356,6 +363,12 @@ func TestVerifC14(t *testing.T) {
 	if !thorough {
 		lengths = append(lengths, 4901, 4970, 4999, 5000)
 	}
+	nHist, histMax := 150, 1500
+	if thorough {
+		nHist, histMax = 1500, 5000
+	}
+	histName := ""
+	histText := fmt.Sprintf("in addition, histories on one path (classes prefixed path-rewritten-with-shorter-file / path-rewritten-with-longer-or-equal-file): %d histories of 3..4 Writes of different documents to the SAME path, the path read back after every Write and compared with the document just written; first document 2..%d letters and 0..30 features, second a smaller document (shorter sequence down to 1 letter or exactly one letter less, no more features than the first, every third with the same region name as the first; the class says whether Build's output is shorter than the longest file written to the path before), later ones equal in length and feature count, smaller, or of any length 1..%d", nHist, histMax, histMax)
 	lenText := "every sequence length 1.." + strconv.Itoa(maxAll) + " (" + strconv.Itoa(reps) + " seeded document(s) each)"
 	if !thorough {
 		lenText += " plus 4 seeded lengths in 351..5000 for each residue class mod 70 and 4901, 4970, 4999, 5000"
@@ -371,9 +384,9 @@ func TestVerifC14(t *testing.T) {
 	}
 	rt := newVerifRun("C14", "io/gff.Build-Parse/post/roundtrip",
 		"Parse(Build(x)) (every 7th case through Write/Read on a temp file) compared with x on region name and bounds, sequence, feature count and order, and each feature's seqid, source, type, score, strand, phase, attributes, location: "+
-			lenText+"; "+featText+"; Meta set as Parse sets it (Name, RegionStart=1, RegionEnd=length; GffVersion \"\" or \"3\"); separate cases (classes prefixed region-not-sequence-length) with 1 <= RegionStart <= RegionEnd unrelated to the length; non-trivial = every case")
+			lenText+"; "+featText+"; Meta set as Parse sets it (Name, RegionStart=1, RegionEnd=length; GffVersion \"\" or \"3\"); separate cases (classes prefixed region-not-sequence-length) with 1 <= RegionStart <= RegionEnd unrelated to the length; "+histText+"; non-trivial = every case")
 	co := newVerifRun("C14", "io/gff.Parse/post/coordinates",
-		"one case per feature of every document of the other two clauses (including the independent writer's texts without a final newline, classes prefixed no-final-newline, and its texts with ### lines between features, classes prefixed resolved-directive-between-features) that Parse returned (documents on which Parse panics are counted there, not here): GetSequence() == sequence[start-1:end] for the file's 1-based inclusive start..end, computed from the generated description")
+		"one case per feature of every document of the other two clauses (including the documents read back in the histories of Writes to one path, classes prefixed path-rewritten-..., and the independent writer's texts without a final newline, classes prefixed no-final-newline, and its texts with ### lines between features, classes prefixed resolved-directive-between-features) that Parse returned (documents on which Parse panics are counted there, not here): GetSequence() == sequence[start-1:end] for the file's 1-based inclusive start..end, computed from the generated description")
 	iw := newVerifRun("C14", "io/gff.Parse/post/independent-writer",
 		"Parse on GFF3 text from an independent writer (##gff-version 3, ##sequence-region name 1 length, 9 tab-separated columns, attributes k=v joined by ';' in arbitrary key order, optional ### line, ##FASTA, >name, sequence lines of width 70, 60, 61, 35 or 10 with a short last line): "+
 			lenText+"; "+featText+"; every document twice: with a newline after the last sequence line, and with the file ending right after the last sequence letter (classes prefixed no-final-newline; every 7th through Read on a temp file); "+
@@ -503,6 +516,76 @@ func TestVerifC14(t *testing.T) {
 			c14Check(c14Runs{iw, co}, d, gtext, how+", Read", "resolved-directive-between-features", func([]byte) poly.Sequence { return Read(p) })
 		} else {
 			c14Check(c14Runs{iw, co}, d, gtext, how, "resolved-directive-between-features", Parse)
+		}
+	}
+	// histories on one path: Write must leave exactly the document just written
+	// in the file, whatever an earlier Write left there. Each history writes 3..4
+	// documents to the same path and reads the path back after every Write; the
+	// second document is always smaller than the first (a shorter file replaces a
+	// longer one), the later ones are smaller, equal in length or larger.
+	// Separate generator stream so that the cases above are unchanged.
+	for h := 0; h < nHist; h++ {
+		rng := rand.New(rand.NewSource(seed*1000003 + int64(h) + 0x1410000000))
+		p := filepath.Join(dir, "hist-"+strconv.Itoa(h)+".gff")
+		steps := 3 + h%2
+		prevLen, prevFeat, prevSize, maxSize := 0, 0, 0, 0
+		for step := 0; step < steps; step++ {
+			var l, nFeat int
+			switch {
+			case step == 0: // the larger document
+				l = 2 + rng.Intn(histMax-1)
+				if h%4 == 0 {
+					l = histMax - rng.Intn(70)
+				}
+				nFeat = rng.Intn(31)
+			case step == 1: // strictly smaller: shorter sequence, no more features
+				l = 1 + rng.Intn(prevLen-1)
+				if h%5 == 0 {
+					l = prevLen - 1 // one letter less
+				}
+				nFeat = rng.Intn(prevFeat + 1)
+			default:
+				switch rng.Intn(3) {
+				case 0: // same length and feature count
+					l, nFeat = prevLen, prevFeat
+				case 1:
+					l, nFeat = 1+rng.Intn(prevLen), rng.Intn(31)
+				default:
+					l, nFeat = 1+rng.Intn(histMax), rng.Intn(31)
+				}
+			}
+			d := c14NewDoc(rng, l, nFeat)
+			if step == 1 && h%3 == 0 { // same region name as the document replaced
+				d.name = histName
+				for i := range d.feats {
+					d.feats[i].seqid = histName
+				}
+			}
+			x := c14ToSequence(d, []string{"", "3"}[(h+step)%2])
+			var text []byte
+			if !rt.Guard("build-panic", c14Describe(d, "Build"), func() { text = Build(x) }) {
+				break
+			}
+			base := ""
+			switch {
+			case step > 0 && len(text) < maxSize: // shorter than a file this path has held
+				base = "path-rewritten-with-shorter-file"
+			case step > 0:
+				base = "path-rewritten-with-longer-or-equal-file"
+			}
+			rt.Case(fmt.Sprintf("history %d step %d len=%d feats=%d bytes=%d after %d (longest %d)", h, step, l, nFeat, len(text), prevSize, maxSize), true)
+			how := fmt.Sprintf("Write/Read on one path, write number %d of the history (Build gives %d bytes; the previous Write to this path gave %d bytes, the longest so far %d bytes)", step+1, len(text), prevSize, maxSize)
+			c14Check(c14Runs{rt, co}, d, text, how, base, func([]byte) poly.Sequence {
+				Write(x, p)
+				return Read(p)
+			})
+			prevLen, prevFeat, prevSize = l, nFeat, len(text)
+			if prevSize > maxSize {
+				maxSize = prevSize
+			}
+			if step == 0 {
+				histName = d.name
+			}
 		}
 	}
 	rt.Done()
